@@ -23,11 +23,13 @@ pub struct ClientOpts {
     pub timestamp: Option<i64>,
     /// SS2022 request type byte
     pub type_byte: u8,
+    /// enforce sender limits on what the server sends (SIP004 chunks of at most 0x3FFF bytes)
+    pub strict_limits: bool,
 }
 
 impl Default for ClientOpts {
     fn default() -> Self {
-        Self { vmess_option: 0x1D, max_chunk: 0x3FFF, initial_payload: true, dgram: false, timestamp: None, type_byte: 0 }
+        Self { vmess_option: 0x1D, max_chunk: 0x3FFF, initial_payload: true, dgram: false, timestamp: None, type_byte: 0, strict_limits: false }
     }
 }
 
@@ -51,7 +53,7 @@ impl RefClient {
         let st = match cfg.proto {
             Proto::Ss(m) if !m.is_2022() => {
                 let master = cfg.ref_client_keys().psk;
-                ClientState::Ss004 { w: ss::Sip004Writer::new(m, &master, rng.bytes(m.key_len())), r: ss::Sip004Reader::new(m, &master, false), sent_addr: false }
+                ClientState::Ss004 { w: ss::Sip004Writer::new(m, &master, rng.bytes(m.key_len())), r: ss::Sip004Reader::new(m, &master, opts.strict_limits), sent_addr: false }
             }
             Proto::Ss(m) => {
                 let keys = cfg.ref_client_keys();
@@ -98,6 +100,14 @@ impl RefClient {
             Some(salt)
         } else {
             None
+        }
+    }
+    /// lengths of the Shadowsocks chunks read from the server so far
+    pub fn ss_chunk_lens(&self) -> Vec<usize> {
+        match &self.st {
+            ClientState::Ss004 { r, .. } => r.chunks.chunk_lens.clone(),
+            ClientState::Ss022 { r, .. } => r.chunks.chunk_lens.clone(),
+            _ => vec![],
         }
     }
     pub fn vmess_header(&self) -> Option<&vmess::RequestHeader> {
